@@ -191,6 +191,30 @@ def run_case(args):
     return fails
 
 
+GTF_TEXT = "".join('chr1\ts\texon\t%d\t%d\t.\t+\t.\tgene_id "g%d"; transcript_id "t%d"; note "a b";\n' % (10 * i + 1, 10 * i + 5, i, i) for i in range(4))
+
+
+def other_dialect_forms(ctx):
+    """the equivalence of input forms 'for every checklines value including 0' is not a property of the default dialect only: a GTF text"""
+    import gffutils
+    path = ctx.path("c13_other.gtf")
+    with open(path, "w") as f:
+        f.write(GTF_TEXT)
+    with gzip.open(path + ".gz", "wt") as f:
+        f.write(GTF_TEXT)
+    want = [{"gene_id": ["g%d" % i], "transcript_id": ["t%d" % i], "note": ["a b"]} for i in range(4)]
+    for cl in (0, 1, 2, 10):
+        for form, arg, kw in (("path", path, {}), ("gz", path + ".gz", {}), ("string", GTF_TEXT, {"from_string": True}), ("url", "file://" + path, {})):
+            try:
+                with S.quiet():
+                    got = [dict((k, list(v)) for k, v in f.attributes.items()) for f in gffutils.DataIterator(arg, checklines=cl, **kw)]
+            except Exception as e:  # noqa
+                got = "raised:" + type(e).__name__
+            if got != want:
+                return form, cl, got if isinstance(got, str) else got[:2]
+    return None
+
+
 def run(ctx):
     thorough = ctx.tier == "thorough"
     mi = 5 if thorough else 4
@@ -213,12 +237,17 @@ def run(ctx):
             ctx.violation({"kinds": c["kinds"], "cl": c["cl"], "file": S.render(c["kinds"]).splitlines()}, clause, {"observed": got, "expected_features": c["feats"]})
         ctx.count((c["kinds"], c["cl"]), len(c["feats"]) > c["cl"] + 1 or any(n in (1, 2, 3) for n in c["feats"]))
     ctx.traces += len(cases) * len(FORMS)
+    bad = other_dialect_forms(ctx)
+    if bad:
+        ctx.violation({"gtf_file": True, "form": bad[0], "cl": bad[1]}, "iterate_content_other_dialect", {"observed": bad[2]})
     ctx.sample({"file": S.render(cases[-1]["kinds"]).splitlines(), "checklines": cases[-1]["cl"], "expected_features": cases[-1]["feats"], "forms": FORMS})
     ctx.assumptions += ["URL input needs a network and is not run", "features are identified by their start coordinate (= position in the file)"]
 
 
 def replay(ctx, rec):
     c = rec["case"]
+    if c.get("gtf_file"):
+        return other_dialect_forms(ctx) is not None
     if "kinds" not in c:
         raise core.CannotReplay("no executable case in this replay file")
     cases = S.get_cases(ctx, max(3, len(c["kinds"]), c["cl"] - 1), "recompute expectation")
